@@ -30,7 +30,8 @@ soft graph, with every task a node of both.
 The closure de-duplicates tasks by identity, not by name (the name check that
 follows must see both tasks of an equal-name pair). USE-PURE - deriving a
 wrapper from another (from_func, map, using) has no write effect on the
-wrapper or task it starts from (ownership analysis). KEY-INJECTIVE - no separator-joined sequence on the way from the sources to
+wrapper or task it starts from (ownership analysis). CLOSE-FRESH - the closure and its helpers remember nothing between calls (no
+attribute stored on a task, no functools cache). KEY-INJECTIVE - no separator-joined sequence on the way from the sources to
 the key (followed through locals and package helpers). FACTORY-PURE - the only
 write of RunTaskFactory.make / copy that reaches the factory or the arguments,
 through any callee, is the memo self.cache (a request never changes what later
@@ -56,6 +57,7 @@ def check(ctx):
     ctx.run(memo.check_close_fields)
     ctx.run(memo.check_use_pure)
     ctx.run(memo.check_factory_pure)
+    ctx.run(memo.check_close_fresh)
 
 
 def variants(program):
@@ -123,6 +125,21 @@ def variants(program):
                                  "in extra_args), kwargs_)"))
     add('seed-factory-key-from-the-joined-command-line', 'mutant', RUN,
         factory_key_joined, {'KEY-INJECTIVE'})
+
+    def closure_memoised(tree):
+        # seed C15-r3-2 (reduced): the closure of a task is remembered on it
+        fun = find_func(tree, 'close_dependency_graph')
+        for idx, stmt in enumerate(fun.body):
+            if isinstance(stmt, ast.Return):
+                fun.body.insert(idx, parse_stmts(
+                    'for task in tasks:\n'
+                    '    task._closure_memo = all_tasks')[0])
+                return True
+        return False
+    add('seed-closure-remembered-on-the-tasks', 'mutant', TASK,
+        closure_memoised, {'CLOSE-FRESH'},
+        note='a dependency added further down after task_stats() is never '
+             'collected')
 
     def make_extends_factory_deps(tree):
         # seed C15-r2-1: the factory's own list is extended in place
